@@ -60,6 +60,7 @@ fn main() {
         "c04-reuse" => c04::reuse_leg(&args),
         "c05-txn" => c05::txn_leg(&args),
         "c05-atomic" => c05::atomic_leg(&args),
+        "c05-exec" => c05::exec_leg(&args),
         "c17-unchanged" => c17::leg(&args),
         "c06-converge" => c06::converge_leg(&args),
         "c07-laws" => c07::laws_leg(&args),
